@@ -301,7 +301,8 @@ class Interp:
         self.summaries = {}  # (file, qualname) -> callable(interp, fi, args, kwargs) (modular contracts)
         self.class_cache = {}
         self.call_depth = 0
-        self.max_depth = 60
+        self.call_stack = []
+        self.max_depth = 80
         self.used_trusted = set()
         self.used_summaries = set()
         self.inlined = set()
@@ -716,9 +717,14 @@ class Interp:
                     return self.trusted[key](self, *args, **kwargs)
                 self.inlined.add(key)
             if self.call_depth > self.max_depth:
-                raise Unsupported(f"call depth exceeded in {fn.qualname} (unbounded recursion?)")
+                raise Unsupported(f"call depth exceeded in {fn.qualname}")
+            # self-recursion without progress: CPython would raise RecursionError (termination obligation)
+            nrec = self.call_stack.count(id(fn.node))
+            if nrec > 20:
+                raise SymRaise("RecursionError", f"unbounded self-recursion in {fn.qualname}")
             env = self.bind(fn, args, kwargs)
             self.call_depth += 1
+            self.call_stack.append(id(fn.node))
             try:
                 if isinstance(fn.node, ast.Lambda):
                     return self.eval(fn.node.body, env, fn.module, fn.cls)
@@ -729,6 +735,7 @@ class Interp:
                 return None
             finally:
                 self.call_depth -= 1
+                self.call_stack.pop()
         if isinstance(fn, ClassV):
             return self.instantiate(fn, args, kwargs)
         if isinstance(fn, ExtMethod):
